@@ -2,6 +2,7 @@ package main
 
 import (
 	"go/ast"
+	"go/constant"
 	"go/token"
 	"go/types"
 	"sort"
@@ -569,6 +570,84 @@ func c18(c *Ctx) {
 		}
 	}
 
+	// R8: a scrape that collected nothing (reader not registered yet, or already shut down) leaves no trace
+	c.Rule("R8", "E2 reachability under the error facts", "Collect: when the reader reports ErrReaderNotRegistered or ErrReaderShutdown nothing was collected — the scrape returns without sending a metric and without filling the once-only caches (target info, resource labels) from the empty ResourceMetrics", 2)
+	if fn := c.Fn(px, "R8", "(*collector).Collect"); fn != nil {
+		g := px.FG(fn)
+		collT := namedOf(fn.Recv().Type())
+		for _, sentinel := range []string{"ErrReaderNotRegistered", "ErrReaderShutdown"} {
+			mentions := 0
+			env := func(e ast.Expr) (constant.Value, bool) {
+				switch x := unparen(e).(type) {
+				case *ast.CallExpr:
+					if isCallTo(info, x, "errors.Is") && len(x.Args) == 2 {
+						if v, ok := pkgVarOf(info, x.Args[1]); ok && v.Pkg() != nil && v.Pkg().Path() == sdkMetric {
+							if v.Name() == sentinel {
+								mentions++
+								return constant.MakeBool(true), true
+							}
+							return constant.MakeBool(false), true
+						}
+					}
+				case *ast.BinaryExpr:
+					if (x.Op == token.NEQ || x.Op == token.EQL) && isNilIdent(info, x.Y) && isErrVar(info, x.X) {
+						return constant.MakeBool(x.Op == token.NEQ), true
+					}
+					if x.Op == token.EQL || x.Op == token.NEQ {
+						// err == metric.ErrX
+						for _, pair := range [][2]ast.Expr{{x.X, x.Y}, {x.Y, x.X}} {
+							if isErrVar(info, pair[0]) {
+								if v, ok := pkgVarOf(info, pair[1]); ok && v.Pkg() != nil && v.Pkg().Path() == sdkMetric {
+									mentions++
+									return constant.MakeBool((v.Name() == sentinel) == (x.Op == token.EQL)), true
+								}
+							}
+						}
+					}
+				}
+				return nil, false
+			}
+			seen := g.ReachUnder(env)
+			bad := ""
+			var badPos token.Pos
+			for x := range seen {
+				if x.N == nil {
+					continue
+				}
+				ast.Inspect(x.N, func(n ast.Node) bool {
+					switch y := n.(type) {
+					case *ast.SendStmt:
+						if bad == "" {
+							bad, badPos = "a metric is sent ("+exprStr(y.Value)+")", y.Pos()
+						}
+					case *ast.AssignStmt:
+						for _, l := range y.Lhs {
+							if fv, b := fieldOf(info, l); fv != nil && b != nil {
+								if tv, ok := info.Types[b]; ok && collT != nil && namedOf(tv.Type) != nil && namedOf(tv.Type).Obj() == collT.Obj() {
+									if bad == "" {
+										bad, badPos = "the collector's "+fv.Name()+" is filled from the empty ResourceMetrics", y.Pos()
+									}
+								}
+							}
+						}
+					}
+					return true
+				})
+			}
+			key := "prometheus|(*collector).Collect|" + sentinel + " ⇒ the scrape returns empty-handed"
+			if mentions == 0 {
+				c.Violation("R8", key, at(px.M, fn.Pos()), "Collect no longer distinguishes "+sentinel+": a scrape made while nothing can be collected goes on to build and cache the target info from an empty resource")
+				continue
+			}
+			pos := fn.Pos()
+			if bad != "" {
+				pos = badPos
+			}
+			c.Check(bad == "", "R8", key, at(px.M, pos), "no send and no cache store reachable when the reader reports "+sentinel,
+				"after a scrape that collected nothing "+bad+": the once-only target info / resource labels are built from an empty resource and stay that way for the life of the exporter")
+		}
+	}
+
 	c.Rule("R7", "E3 per-iteration reset", "in Collect, a label buffer (keyVals) that is appended to inside the per-scope loop is either created inside that loop or emptied on every path from the start of an iteration to the append: labels of one scope never pile up on the next", 2)
 	if fn := c.Fn(px, "R7", "(*collector).Collect"); fn != nil {
 		g := px.FG(fn)
@@ -893,4 +972,17 @@ func c18(c *Ctx) {
 			c.Undecided("R5", "prometheus|addExponentialHistogramMetric|both sides converted", at(px.M, fn.Pos()), itoa(n)+" bucket stores found, expected 2")
 		}
 	}
+}
+
+// pkgVarOf: e names a package-level variable (pkg.V or V); ok reports whether it does.
+func pkgVarOf(info *types.Info, e ast.Expr) (*types.Var, bool) {
+	switch x := unparen(e).(type) {
+	case *ast.SelectorExpr:
+		v, ok := info.Uses[x.Sel].(*types.Var)
+		return v, ok && v != nil && !v.IsField()
+	case *ast.Ident:
+		v, ok := info.Uses[x].(*types.Var)
+		return v, ok && v != nil && v.Parent() != nil && v.Pkg() != nil && v.Parent() == v.Pkg().Scope()
+	}
+	return nil, false
 }
